@@ -168,6 +168,10 @@ impl Watchexec {
 			);
 			tasks.spawn(error_hook(er_r, config.error_handler.clone()).map_ok(|()| "error"));
 
+			// a worker that could not report a runtime error because the error hook had already
+			// ended is a consequence, not the cause: the hook's own result says why it ended
+			let mut error_hook_gone = None;
+
 			while let Some(Ok(res)) = tasks.join_next().await {
 				match res {
 					Ok("action") => {
@@ -182,10 +186,18 @@ impl Watchexec {
 						// Close event channel to signal worker task to stop
 						ev_s.close();
 					}
+					Err(e @ CriticalError::ErrorChannelSend(_)) => {
+						debug!(%e, "a worker lost the error channel, waiting for the error hook's result");
+						error_hook_gone.get_or_insert(e);
+					}
 					Err(e) => {
 						return Err(e);
 					}
 				}
+			}
+
+			if let Some(e) = error_hook_gone {
+				return Err(e);
 			}
 
 			debug!("main task graceful exit");
